@@ -338,3 +338,22 @@ VARIANTS += [
     ("C16-nth-error", "C16", DT, "        if not dt:\n            raise PendulumException(", "        if dt:\n            raise PendulumException(", "DISPATCH.nth-error"),
     ("C16-dispatch-units", "C16", DATE, "        if unit not in [\"month\", \"quarter\", \"year\"]:\n            raise ValueError(f'Invalid unit \"{unit}\" for first_of()')\n\n        return cast(\"Self\", getattr(self, f\"_last_of_{unit}\")(day_of_week))", "        if unit not in [\"month\", \"year\"]:\n            raise ValueError(f'Invalid unit \"{unit}\" for first_of()')\n\n        return cast(\"Self\", getattr(self, f\"_last_of_{unit}\")(day_of_week))", "DISPATCH.units"),
 ]
+
+VARIANTS += [
+    ("C17-clean", "C17", None, "", "", None),
+    ("C17-minute-optional", "C17", PARSING, r'(?P<hour>\d{1,2}):(?P<minute>\d{1,2})(?::(?P<second>\d{1,2}))?', r'(?P<hour>\d{1,2}):(?P<minute>\d{1,2})?(?::(?P<second>\d{1,2}))?', "NULLABLE-GROUP"),
+    ("C17-second-unguarded", "C17", PARSING, '    second = int(m.group("second")) if m.group("second") else 0', '    second = int(m.group("second"))', "NULLABLE-GROUP"),
+    ("C17-iso-minute-unguarded", "C17", ISO, '    if m.group("minute"):\n        minute = int(m.group("minute"))\n    elif minsep:', '    if minsep:\n        minute = int(m.group("minute"))\n    elif minsep:', "NULLABLE-GROUP"),
+    ("C17-iso-day-regex-optional", "C17", ISO, r'(?P<monthsep>-)?(?P<month>\d{2})', r'(?P<monthsep>-)?(?P<month>\d{2})?', "NULLABLE-GROUP"),
+    ("C17-weeks-unguarded", "C17", ISO, '        _weeks = m.group("weeks")\n        if not _weeks:\n            raise ParserError("Invalid duration string")\n', '        _weeks = m.group("weeks")\n', None),
+    ("C17-no-overflow-handler", "C17", PARSER, "    try:\n        return _parse(text, **options)\n    except OverflowError as e:\n        # Numbers too large for a date, time or duration\n        raise ParserError(f\"Unable to parse string [{text}]: {e}\") from e", "    return _parse(text, **options)", "UNBOUNDED-INT"),
+    ("C17-handler-wrong-exc", "C17", PARSER, "        raise ParserError(f\"Unable to parse string [{text}]: {e}\") from e", "        raise RuntimeError(f\"Unable to parse string [{text}]: {e}\") from e", "UNBOUNDED-INT.convert"),
+    ("C17-interval-novalidate", "C17", PARSING, "    for bound in (start, end):\n        # A duration can only be applied to a date and time,\n        # an interval without duration may also join two dates.\n        if bound is not None and not isinstance(\n            bound, date if duration is None else datetime\n        ):\n            raise ParserError(\"Invalid interval\")\n", "", "CAST-UNION"),
+    ("C17-interval-duration-novalidate", "C17", PARSING, "    if duration is not None and not isinstance(duration, Duration):\n        raise ParserError(\"Invalid interval\")\n", "", "CAST-UNION"),
+    ("C17-interval-validate-one", "C17", PARSING, "    for bound in (start, end):", "    for bound in (start,):", "CAST-UNION"),
+    ("C17-ladder-arm-removed", "C17", PARSER, "    if isinstance(parsed, Duration):\n        return parsed\n", "", "LADDER.exhaustive"),
+    ("C17-strict-ignored", "C17", PARSING, '    if options.get("strict", True):\n        raise ParserError(f"Unable to parse string [{text}]")', '    if options.get("strict", True) and False:\n        raise ParserError(f"Unable to parse string [{text}]")', "STRICT.gate"),
+    ("C17-dateutil-overflow", "C17", PARSING, "    except (ValueError, OverflowError):", "    except ValueError:", "STRICT.errors"),
+    ("C17-raise-typeerror", "C17", ISO, '        raise ParserError("Invalid ISO 8601 string")', '        raise TypeError("Invalid ISO 8601 string")', "EXC.explicit"),
+    ("C17-rs-error-type", "C17", "rust/src/python/parsing.rs", "        Err(error) => Err(exceptions::PyValueError::new_err(error.to_string())),", "        Err(error) => Err(exceptions::PyTypeError::new_err(error.to_string())),", "RUST.errors"),
+]
